@@ -129,6 +129,13 @@ def shrinkMax (delta : Rat) : Option Rat → Option Rat
   | none => none                      -- Inf - delta = Inf
   | some v => some (ratMax 0 (v - delta))
 
+/-- horizontalDelta / verticalDelta of `resolvePercentages` (`pad`, `bor`: sums of the two paddings / borders) -/
+def boxDelta (sz : Sizing) (pad bor : Rat) : Rat :=
+  match sz with
+  | .border => pad + bor
+  | .padding => pad
+  | .content => 0
+
 /-- percentages.go `resolvePercentages` for a non-page box; `cbH = auto` is the branch
     "height of the containing block depends on its content". -/
 def resolvePercentages (cbW : Rat) (cbH : MF) (s : Style) : Used :=
@@ -142,14 +149,8 @@ def resolvePercentages (cbW : Rat) (cbH : MF) (s : Style) : Used :=
         | .pct _ => .auto
         | .px v => .val v)
     | .val h => resolveOne s.height h
-  let hd : Rat := match s.sizing with
-    | .border => pl + pr + s.bl + s.br
-    | .padding => pl + pr
-    | .content => 0
-  let vd : Rat := match s.sizing with
-    | .border => pt + pb + s.bt + s.bb
-    | .padding => pt + pb
-    | .content => 0
+  let hd : Rat := boxDelta s.sizing (pl + pr) (s.bl + s.br)
+  let vd : Rat := boxDelta s.sizing (pt + pb) (s.bt + s.bb)
   let width := resolveOne s.width cbW
   let minW := resolveMin s.minW cbW
   let maxW := resolveMax s.maxW cbW
@@ -327,54 +328,58 @@ structure VRes where
   through : Bool        -- blockLayout.collapsingThrough
   pOut : List Rat       -- the caller's `*adjoiningMargins` after the call (it is appended to in place)
 
-/-- state of the children loop of blockContainerLayout -/
+/-- state of the children loop of blockContainerLayout (`newChildren` is returned separately) -/
 structure VLoop where
   y : Rat                 -- positionY
   adj : List Rat          -- *adjoiningMargins
   aliased : Bool          -- adjoiningMargins is still the pointer `thisBoxAdjoiningMargins`
   p : List Rat            -- *thisBoxAdjoiningMargins
-  kids : List LTree       -- newChildren (in order)
+
+/-- blockContainerLayout before the children loop: `*adjoiningMargins = append(*adjoiningMargins, MarginTop)`,
+    `collapsingWithChildren`, the starting `positionY` -/
+def vStart (r : RStyle) (y0 : Rat) (adjIn : List Rat) : VLoop :=
+  let p0 := adjIn ++ [r.mt]
+  if r.cwc then { y := y0, adj := p0, aliased := true, p := p0 }
+  else { y := (y0 + collapseMargin p0 - r.mt) + r.mt + r.pt + r.bt, adj := [], aliased := false, p := p0 }
+
+/-- blockContainerLayout after the children loop (`leaf`: no in-flow child was laid out) -/
+def vFinish (r : RStyle) (y0 : Rat) (adjIn : List Rat) (leaf : Bool) (l : VLoop) (kids : List LTree) : VRes :=
+  -- if collapsingWithChildren { box.PositionY += collapseMargin(*thisBoxAdjoiningMargins) - MarginTop }
+  let posY := if r.cwc then y0 + collapseMargin l.p - r.mt else y0 + collapseMargin (adjIn ++ [r.mt]) - r.mt
+  -- lastInFlowChild == nil ?
+  let yat : Rat × List Rat × Bool :=
+    if leaf then
+      if r.emptyThrough then (l.y, l.adj, true)
+      else (l.y + collapseMargin l.adj, [], false)
+    else
+      if r.height.isAuto then (l.y, l.adj, false) else (l.y, [], false)
+  let ya : Rat × List Rat :=
+    if r.bb != 0 || r.pb != 0 || r.isRoot then (yat.1 + collapseMargin yat.2.1, ([] : List Rat)) else (yat.1, yat.2.1)
+  let h0 := match r.height with
+    | .auto => ya.1 - (posY + r.mt + r.pt + r.bt)
+    | .val v => v
+  let h := clampH h0 r.minH r.maxH
+  { tree := .mk { x := r.x, y := posY, w := r.width, h := h, mt := r.mt, mr := r.mr, mb := r.mb, ml := r.ml,
+                  pt := r.pt, pr := r.pr, pb := r.pb, pl := r.pl, bt := r.bt, br := r.br, bb := r.bb, bl := r.bl }
+                kids,
+    adj := ya.2, through := yat.2.2, pOut := l.p }
 
 mutual
   /-- blockLevelLayout → blockContainerLayout for one in-flow block box whose `PositionY` was set
       to `y0` by the parent, with `*adjoiningMargins = adjIn` -/
   def vbox (y0 : Rat) (adjIn : List Rat) : RBox → VRes
     | .mk r cs =>
-      let p0 := adjIn ++ [r.mt]                         -- *adjoiningMargins = append(*adjoiningMargins, MarginTop)
-      let cwc := r.cwc
-      let posY1 := if cwc then y0 else y0 + collapseMargin p0 - r.mt
-      let start : VLoop :=
-        if cwc then { y := y0, adj := p0, aliased := true, p := p0, kids := [] }
-        else { y := posY1 + r.mt + r.pt + r.bt, adj := [], aliased := false, p := p0, kids := [] }
-      let l := vlist start cs
-      -- if collapsingWithChildren { box.PositionY += collapseMargin(*thisBoxAdjoiningMargins) - MarginTop }
-      let posY := if cwc then y0 + collapseMargin l.p - r.mt else posY1
-      -- lastInFlowChild == nil ?
-      let (y2, adj2, through) :=
-        match cs with
-        | [] =>
-          if r.emptyThrough then (l.y, l.adj, true)
-          else (l.y + collapseMargin l.adj, [], false)
-        | _ :: _ =>
-          if r.height.isAuto then (l.y, l.adj, false) else (l.y, [], false)
-      let (y3, adj3) :=
-        if r.bb != 0 || r.pb != 0 || r.isRoot then (y2 + collapseMargin adj2, ([] : List Rat)) else (y2, adj2)
-      let h0 := match r.height with
-        | .auto => y3 - (posY + r.mt + r.pt + r.bt)
-        | .val v => v
-      let h := clampH h0 r.minH r.maxH
-      { tree := .mk { x := r.x, y := posY, w := r.width, h := h, mt := r.mt, mr := r.mr, mb := r.mb, ml := r.ml,
-                      pt := r.pt, pr := r.pr, pb := r.pb, pl := r.pl, bt := r.bt, br := r.br, bb := r.bb, bl := r.bl }
-                    l.kids,
-        adj := adj3, through := through, pOut := l.p }
-  /-- the children loop: inFlowLayout for each child -/
-  def vlist (st : VLoop) : List RBox → VLoop
-    | [] => st
+      let lk := vlist (vStart r y0 adjIn) cs
+      vFinish r y0 adjIn cs.isEmpty lk.1 lk.2
+  /-- the children loop: inFlowLayout for each child; returns the final state and `newChildren` -/
+  def vlist (st : VLoop) : List RBox → VLoop × List LTree
+    | [] => (st, [])
     | c :: cs =>
       let r := vbox st.y st.adj c
       let y := if r.through then st.y else r.tree.box.borderBottom
-      vlist { y := y, adj := r.adj ++ [r.tree.box.mb], aliased := false,
-              p := if st.aliased then r.pOut else st.p, kids := st.kids ++ [r.tree] } cs
+      let rest := vlist { y := y, adj := r.adj ++ [r.tree.box.mb], aliased := false,
+                          p := if st.aliased then r.pOut else st.p } cs
+      (rest.1, r.tree :: rest.2)
 end
 
 /-- whole document: root element box in the page's content area (`pageW × pageH` at 0,0) -/
